@@ -4,7 +4,7 @@ from . import build
 
 
 def main():
-    r = build.ensure(["slack", "noslack", "so", "o0", "o3", "lto_O0", "lto_O2", "lto_O3"], [("hstat", "so"), ("halloc", "slack"), ("hx", "slack"), ("hx", "noslack"), ("hhand", "slack"), ("htok", "slack"), ("hpf", "slack"), ("hpf", "noslack"), ("hsort", "slack"), ("hnorm", "slack"), ("hmbs", "slack"), ("hmbs", "noslack"), ("hts", "slack"), ("hts", "o0"), ("hts", "o3"), ("hos", "slack"), ("hos", "noslack")])
+    r = build.ensure(["slack", "noslack", "so", "o0", "o3", "lto_O0", "lto_O2", "lto_O3", "clto_O0", "clto_O2", "clto_O3"], [("hstat", "so"), ("halloc", "slack"), ("hx", "slack"), ("hx", "noslack"), ("hhand", "slack"), ("htok", "slack"), ("hpf", "slack"), ("hpf", "noslack"), ("hsort", "slack"), ("hnorm", "slack"), ("hmbs", "slack"), ("hmbs", "noslack"), ("hts", "slack"), ("hts", "o0"), ("hts", "o3"), ("hos", "slack"), ("hos", "noslack")])
     from . import ucdgen
     ucdgen.ensure()
     print("built", r["key"])
